@@ -136,9 +136,12 @@ func compareVersionParts(a, b []string) int {
 			bPart = "0" // Missing parts are treated as 0
 		}
 
-		// Compare parts using natural ordering
+		// Compare parts using natural ordering; textually different parts can
+		// still be equal ("01" vs "1"), in which case later parts decide
 		if aPart != bPart {
-			return naturalCompare(aPart, bPart)
+			if result := naturalCompare(aPart, bPart); result != 0 {
+				return result
+			}
 		}
 	}
 
